@@ -242,6 +242,8 @@ fn rule_key() -> impl Strategy<Value = UStr> {
         1 => Just(UStr::plain("GamePassword", Enc::Latin1)),
         3 => prop::sample::select(vec!["ServerMode", "AdminName", "GameStats", "MinPlayers", "k"]).prop_map(|s| UStr::plain(s, Enc::Latin1)),
         4 => ustr(20),
+        // (the format allows 127 code units per string: the long ones live in the lists, whose datagrams the model fits to 1024 bytes)
+        1 => ustr(126),
         // keys that only resemble the special ones (MutatorCount, xMutator, GamePasswords, gamepassword ...)
         2 => crate::util::near(&["Mutator", "GamePassword"]).prop_map(|s| UStr::plain(&s, Enc::Latin1)),
     ]
@@ -251,11 +253,12 @@ fn rule_value() -> impl Strategy<Value = UStr> {
     prop_oneof![
         1 => prop::sample::select(vec!["True", "False", "true"]).prop_map(|s| UStr::plain(s, Enc::Latin1)),
         5 => ustr(60),
+        1 => ustr(126),
     ]
 }
 
 fn u2player() -> impl Strategy<Value = U2Player> {
-    (crate::util::num::<u32>(), ustr(30), prop_oneof![2 => Just(0u32), 5 => 1u32..500, 1 => crate::util::num::<u32>()], prop_oneof![crate::util::num::<i32>(), -10i32..200], crate::util::num::<u32>()).prop_map(
+    (crate::util::num::<u32>(), prop_oneof![6 => ustr(30).boxed(), 1 => ustr(126).boxed()], prop_oneof![2 => Just(0u32), 5 => 1u32..500, 1 => crate::util::num::<u32>()], prop_oneof![crate::util::num::<i32>(), -10i32..200], crate::util::num::<u32>()).prop_map(
         |(id, name, ping, score, stats_id)| {
             U2Player {
                 id,
